@@ -181,7 +181,13 @@ def gen_dsep_op(rng: random.Random, target: list, m: MG) -> dict | None:
     else:
         C = rng.sample(rest, rng.randint(0, len(rest)))
     c = rng.choice(("set", "frozenset", "list", "tuple", "none" if not C else "list", "dup-list"))
-    return {"op": "are_d_separated", "t": target, "a": {"a": a, "b": b, "C": C, "c": c, "sym": rng.random() < 0.35}}
+    spec = {"op": "are_d_separated", "t": target, "a": {"a": a, "b": b, "C": C, "c": c, "sym": rng.random() < 0.35}}
+    if rng.random() < 0.04:
+        # fault 'badarg': a conditioning node the graph does not have (documented to raise KeyError, possibly
+        # after work has been done); the calls that follow must be unaffected
+        spec["a"]["bad"] = "Zzmissing"
+        spec["a"]["c"] = rng.choice(("set", "list", "tuple"))
+    return spec
 
 
 # =========================================================================== model pass
@@ -364,7 +370,9 @@ def prepare_surgery(spec: dict, tgt: NxMixedGraph) -> Callable[[], Any]:
         return lambda: get_nodes_in_directed_paths(tgt, s, t)
     if op == "are_d_separated":
         va, vb = mkvar(a["a"]), mkvar(a["b"])
-        if a["c"] == "none":
+        if a.get("bad"):
+            cond = _mkarg(a["C"] + [a["bad"]], a["c"])
+        elif a["c"] == "none":
             cond = None
         elif a["c"] == "dup-list":
             cond = [mkvar(n) for n in a["C"]] + [mkvar(n) for n in a["C"][:1]]
@@ -805,6 +813,7 @@ class CaseRun:
             return
         got = ser_result(kind, val)
         results[key] = ("ok", kind, got, judged)
+        self._scribble(kind, val)
         if kind == "graph" and key not in self.bad_keys:
             values[key] = val
         if base is None:
@@ -901,6 +910,27 @@ class CaseRun:
             elif b[2][1] != est:
                 self.viol("O4", op, "estimand-differs-from-sequential", pname, key=list(key), spec=spec,
                           got=est, sequential=b[2][1])
+
+    def _scribble(self, kind: str, val: Any) -> None:
+        """The caller owns what it was given: it empties / extends a returned container (already serialised).
+
+        If the operation handed out one of its own internal objects (a memoised set, the receiver's own
+        structure), later operations go wrong and the model / baseline oracles report them."""
+        try:
+            if kind in ("set", "setofsets") and isinstance(val, set):
+                val.clear()
+                val.add(mkvar(SENTINEL) if kind == "set" else frozenset([mkvar(SENTINEL)]))
+                self._probe("scribbled-on-returned-set")
+            elif kind == "list" and isinstance(val, list):
+                val.clear()
+                val.append(mkvar(SENTINEL))
+                self._probe("scribbled-on-returned-list")
+            elif kind == "nxgraph":
+                val.clear()
+                val.add_edge(mkvar(SENTINEL), mkvar(SENTINEL + "2"))
+                self._probe("scribbled-on-returned-nxgraph")
+        except Exception:  # noqa: BLE001 - immutable results (frozenset, tuple, frozen views) are fine
+            self._probe("returned-container-immutable")
 
     def judge_dsep(self, pname: str, key: tuple, spec: dict, got: list, exp: dict, m: MG) -> None:
         """C04 in-run oracles: O1 verdict = m-separation, O2 symmetric in (a, b), O3 faithful canonical record."""
